@@ -319,7 +319,7 @@ func (e *Engine) strConst(v string) StrV {
 	for i := 0; i < len(v); i++ {
 		vals[i] = int64(v[i])
 	}
-	smt.DefineTable(tbl, vals, -1)
+	smt.DefineTable(tbl, vals, 0)
 	arrName := "K_" + smt.Mangle(name)
 	arr := smt.Var(arrName, smt.IArr)
 	constArrs[arr] = tbl
